@@ -779,6 +779,8 @@ impl<Writer: Write> Muxer<Writer> {
         }
 
         let scaled_pts = (pts * MEDIA_TIMESCALE as f64).round();
+        #[cfg(feature = "verif")]
+        crate::verif::cast("api.pts_ticks", scaled_pts as i128, 64, false);
         let pts_units = scaled_pts as u64;
 
         if self.first_video_pts.is_none() {
@@ -860,8 +862,12 @@ impl<Writer: Write> Muxer<Writer> {
         }
 
         let scaled_pts = (pts * MEDIA_TIMESCALE as f64).round();
+        #[cfg(feature = "verif")]
+        crate::verif::cast("api.pts_ticks", scaled_pts as i128, 64, false);
         let pts_units = scaled_pts as u64;
         let scaled_dts = (dts * MEDIA_TIMESCALE as f64).round();
+        #[cfg(feature = "verif")]
+        crate::verif::cast("api.dts_ticks", scaled_dts as i128, 64, false);
         let dts_units = scaled_dts as u64;
 
         if self.first_video_pts.is_none() {
@@ -965,6 +971,8 @@ impl<Writer: Write> Muxer<Writer> {
         }
 
         let scaled_pts = (pts * MEDIA_TIMESCALE as f64).round();
+        #[cfg(feature = "verif")]
+        crate::verif::cast("api.pts_ticks", scaled_pts as i128, 64, false);
         let pts_units = scaled_pts as u64;
 
         self.writer
@@ -1301,5 +1309,31 @@ mod tests {
         let metadata = config.metadata.unwrap();
         assert_eq!(metadata.title, Some("Chained Test".to_string()));
         assert_eq!(metadata.language, Some("eng".to_string()));
+    }
+}
+
+#[cfg(feature = "verif")]
+impl<Writer> Muxer<Writer> {
+    /// Canonical rendering of the muxer's logical state (verification hook).
+    pub fn verif_snapshot(&self) -> String {
+        fn ob(v: Option<f64>) -> String {
+            match v {
+                Some(x) => format!("{:016x}", x.to_bits()),
+                None => "-".to_string(),
+            }
+        }
+        format!(
+            "api{{first_vpts={} last_vpts={} last_vdts={} last_apts={} vcount={} acount={} finished={} cur_v={:016x} cur_a={:016x}}} {}",
+            ob(self.first_video_pts),
+            ob(self.last_video_pts),
+            ob(self.last_video_dts),
+            ob(self.last_audio_pts),
+            self.video_frame_count,
+            self.audio_frame_count,
+            self.finished,
+            self.current_video_pts.to_bits(),
+            self.current_audio_pts.to_bits(),
+            self.writer.verif_snapshot()
+        )
     }
 }
